@@ -90,6 +90,21 @@ def build_proofs(ctx, mod):
     if bad:
         info["ok"] = False
         info["broken"] = "banned construct in development: %r" % (bad[:5],)
+    if info["ok"] and ctx.tier == "thorough":
+        # independent re-check of the compiled cone with coqchk, and the axioms it relies on
+        import subprocess
+        try:
+            pr = subprocess.run(["coqchk", "-o", "-silent", "-Q", "theories", "MP", "MP.Props.%s" % ctx.prop], cwd=COQ,
+                                stdout=subprocess.PIPE, stderr=subprocess.STDOUT, timeout=3000)
+            out = pr.stdout.decode("utf-8", "replace")
+            summ = out[out.find("CONTEXT SUMMARY"):] if "CONTEXT SUMMARY" in out else out[-800:]
+            info["coqchk"] = " ".join(summ.split())[:600]
+            if pr.returncode != 0:
+                info["ok"] = False
+                info["broken"] = "coqchk rejected the compiled cone of Props/%s: %s" % (ctx.prop, out[-600:])
+        except subprocess.TimeoutExpired:
+            info["ok"] = False
+            info["broken"] = "coqchk timed out on Props/%s" % ctx.prop
     return info
 
 
@@ -193,6 +208,8 @@ def write_evidence(ctx, mod, proof, res, violations, known_lines):
     if res.get("exhaustive") is not None:
         cov["exhaustive"] = bool(res["exhaustive"])
     cov.update(res.get("extra", {}))
+    if proof and proof.get("coqchk"):
+        cov["coqchk"] = proof["coqchk"]
     ev = {
         "property_id": prop,
         "tier": ctx.tier,
